@@ -1,6 +1,8 @@
 package props
 
 import (
+	"go/token"
+	"go/types"
 	"strings"
 
 	"gcacheck/internal/an"
@@ -108,6 +110,7 @@ func runC06(c *an.Ctx) {
 	// the loader verifies every record before applying it
 	lfi := p.Info(loader)
 	okV := false
+	verifyIgnored := false
 	for _, b := range loader.Blocks {
 		for _, in := range b.Instrs {
 			if mu, ok := in.(*ssa.MapUpdate); ok {
@@ -122,8 +125,15 @@ func runC06(c *an.Ctx) {
 							for _, f := range fs {
 								if (f.T.K == an.KPure || f.T.K == an.KCall) && strings.HasSuffix(f.T.Callee(), "glow.Verify") {
 									if f2, _, ok := mapFieldOfTerm(f.T.A[0]); ok && f2 == "gcaPubkey" {
-										// the loader returns on error of this call
-										okV = true
+										// the loader gives up on an error of this call: every way on from "error != nil"
+										// ends in an error return (a record that does not verify is never skipped over or
+										// applied)
+										if errorAborts(lfi, call) {
+											okV = true
+										} else {
+											okV = false
+											verifyIgnored = true
+										}
 									}
 								}
 							}
@@ -133,7 +143,7 @@ func runC06(c *an.Ctx) {
 			}
 		}
 	}
-	c.Check(okV, "AUTH", loader, loader.Pos(), an.KeyOf(loader, "loader-verifies"), "the loader verifies each persisted authorization under the GCA key before applying it", "call to a function whose nil-error summary contains Verify(gcaPubkey, ...)")
+	c.Check(okV && !verifyIgnored, "AUTH", loader, loader.Pos(), an.KeyOf(loader, "loader-verifies"), "the loader verifies each persisted authorization under the GCA key before applying it", "call to a function whose nil-error summary contains Verify(gcaPubkey, ...)")
 	keyset(c, []*ssa.Function{saver, loader}, "C06")
 	// "also after a restart": the loaders' rules (owned by C04)
 	restartRules(c)
@@ -486,4 +496,45 @@ func restartRules(c *an.Ctx) {
 	roles, construction := fileRoles(c)
 	replayRule(c, roles, construction)
 	monotoneLoad(c, roles)
+}
+
+// errorAborts: the error result of call (its only result, or the last one) is tested against nil and every way on from
+// "not nil" ends in an error return or a panic.
+func errorAborts(fi *an.FuncInfo, call *ssa.Call) bool {
+	var errV ssa.Value = call
+	if tup, ok := call.Type().(*types.Tuple); ok {
+		errV = nil
+		if call.Referrers() != nil {
+			for _, r := range *call.Referrers() {
+				if ex, isEx := r.(*ssa.Extract); isEx && ex.Index == tup.Len()-1 {
+					errV = ex
+				}
+			}
+		}
+	}
+	if errV == nil || errV.Referrers() == nil {
+		return false
+	}
+	tested := false
+	for _, r := range *errV.Referrers() {
+		bo, ok := r.(*ssa.BinOp)
+		if !ok || (bo.Op != token.NEQ && bo.Op != token.EQL) || bo.Referrers() == nil {
+			continue
+		}
+		for _, r2 := range *bo.Referrers() {
+			iff, isIf := r2.(*ssa.If)
+			if !isIf {
+				continue
+			}
+			tested = true
+			succ := iff.Block().Succs[0]
+			if bo.Op == token.EQL {
+				succ = iff.Block().Succs[1]
+			}
+			if !abortsOnly(fi, iff.Block(), succ) {
+				return false
+			}
+		}
+	}
+	return tested
 }
